@@ -1763,10 +1763,23 @@ class TrajectoryStore:
                 if all(var[index] == var.get_fill_value()):
                     return None
                 return var[index]
-            case (True, False, False) | (True, False, True):
-                # SpeciesValues[float] | SpeciesValues[np.ndarray]
+            case (True, False, False):
+                # SpeciesValues[float]: species that were not set for this
+                # field still hold the fill value and are not part of it.
+                fill = var.get_fill_value()
                 return SpeciesValues(
-                    {sp: var[index, si] for si, sp in enumerate(species)}
+                    {
+                        sp: var[index, si]
+                        for si, sp in enumerate(species)
+                        if var[index, si] != fill
+                    }
+                )
+            case (True, False, True):
+                # SpeciesValues[np.ndarray]: species that were not set for
+                # this field hold an empty variable-length array.
+                values = {sp: var[index, si] for si, sp in enumerate(species)}
+                return SpeciesValues(
+                    {sp: v for sp, v in values.items() if len(v) > 0}
                 )
             case (False, True, False):
                 # ThrustModeValues
@@ -1774,13 +1787,16 @@ class TrajectoryStore:
                     {tm: var[index, ti] for ti, tm in enumerate(ThrustMode)}
                 )
             case (True, True, False):
-                # SpeciesValues[ThrustModeValues]
+                # SpeciesValues[ThrustModeValues]: species that were not set
+                # for this field still hold the fill value for every mode.
+                fill = var.get_fill_value()
                 return SpeciesValues[ThrustModeValues](
                     {
                         sp: ThrustModeValues(
                             {tm: var[index, si, ti] for ti, tm in enumerate(ThrustMode)}
                         )
                         for si, sp in enumerate(species)
+                        if not all(var[index, si, :] == fill)
                     }
                 )
             case _:
